@@ -1,1 +1,58 @@
-// harnesses for module m_stat (included into /repo under cfg(kani))
+// C13/C14: -links and -inum are the numeric comparison on the selected record's field.
+use super::*;
+use crate::find::matchers::entry::verif_kani::*;
+use crate::find::matchers::Follow;
+
+pub fn any_cv() -> (ComparableValue, u8, u64) {
+    let n: u64 = kani::any();
+    let k = kani::any::<u8>() % 3;
+    (match k { 0 => ComparableValue::MoreThan(n), 1 => ComparableValue::EqualTo(n), _ => ComparableValue::LessThan(n) }, k, n)
+}
+pub fn want_cmp(k: u8, n: u64, v: u64) -> bool { match k { 0 => v > n, 1 => v == n, _ => v < n } }
+
+// @harness props=C13,C14 tier=quick cost=60 flags=nomem
+// @exec LinksMatcher::matches, InodeMatcher::matches, ComparableValue::matches, WalkEntry::metadata, Follow::metadata_at_depth
+// @sym world (lstat/stat records, errno {ENOENT,ELOOP}), follow P/H/L, depth 0..1, N: u64, form N/+N/-N
+// @bounds one path; depth <= 1
+// @assume kernel contract for stat vs lstat
+#[kani::proof]
+#[kani::unwind(3)]
+#[kani::stub(alloc::fmt::format, fmt_stub)]
+#[kani::stub(std::fs::metadata, stat_stub)]
+#[kani::stub(std::fs::symlink_metadata, lstat_stub)]
+fn c13_links_inum_record() {
+    let (lst, sst, s_ok, s_err) = any_world(&[libc::ENOENT, libc::ELOOP]);
+    let follow = any_follow();
+    let depth: usize = kani::any();
+    kani::assume(depth <= 1);
+    let entry = WalkEntry::new("a", depth, follow);
+    let (cv, k, n) = any_cv();
+    let deps = Deps::new();
+    let mut io = MatcherIO::new(&deps);
+    let rec = selected_record(lst, sst, s_ok, s_err, follow.follow_at_depth(depth));
+    if kani::any() {
+        let got = LinksMatcher::new(cv).matches(&entry, &mut io);
+        match rec { Some(r) => assert!(got == want_cmp(k, n, r.st_nlink)), None => assert!(!got) }
+        kani::cover!(got && k == 0);
+    } else {
+        let got = InodeMatcher::new(cv).matches(&entry, &mut io);
+        match rec { Some(r) => assert!(got == want_cmp(k, n, r.st_ino)), None => assert!(!got) }
+        kani::cover!(got && k == 2 && follow == Follow::Always && s_ok && lst.st_ino != sst.st_ino);
+    }
+    std::mem::forget(entry);
+}
+#[kani::proof]
+#[kani::unwind(3)]
+#[kani::stub(alloc::fmt::format, fmt_stub)]
+#[kani::stub(std::fs::metadata, stat_stub)]
+#[kani::stub(std::fs::symlink_metadata, lstat_stub)]
+fn c13_links_inum_record_canary() {
+    let (lst, _sst, _s_ok, _s_err) = any_world(&[libc::ENOENT]);
+    let entry = WalkEntry::new("a", 0, any_follow());
+    let (cv, k, n) = any_cv();
+    let deps = Deps::new();
+    let mut io = MatcherIO::new(&deps);
+    let got = InodeMatcher::new(cv).matches(&entry, &mut io);
+    assert!(got == want_cmp(k, n, lst.st_ino)); // always lstat: must FAIL
+    std::mem::forget(entry);
+}
